@@ -185,6 +185,9 @@ func (es *evaluationScope) evaluatePrerequisite(
 	subScope := *es
 	subScope.flag = prereqFlag
 	result, ok := subScope.evaluate(stack)
+	// The membership cache may have been created lazily inside the prerequisite's scope; keep it so
+	// that the same context key is not queried again later in this evaluation.
+	es.bigSegmentsMemberships = subScope.bigSegmentsMemberships
 	es.bigSegmentsStatus = computeUpdatedBigSegmentsStatus(es.bigSegmentsStatus, subScope.bigSegmentsStatus)
 	return result, ok
 }
